@@ -58,6 +58,35 @@ def stub_number_formatting():
 
     opcode_intercept.FormatStashingValue.__format__ = _stash_format
 
+    # ast.unparse / ast.dump of a tree that holds symbolic leaves (func_adl renders sub-trees into its error messages): the
+    # text would realise every leaf, so CrossHair would enumerate values; such a rendering yields a placeholder text instead.
+    # Trees without symbolic leaves are rendered normally.
+    from crosshair.util import CrossHairValue as _CHV
+
+    def _has_symbolic(n):
+        if isinstance(n, _ast.AST):
+            for f in n._fields:
+                if _has_symbolic(getattr(n, f, None)):
+                    return True
+            return False
+        if isinstance(n, list):
+            return any(_has_symbolic(x) for x in n)
+        return isinstance(n, _CHV)
+
+    _orig_unparse, _orig_dump = _ast.unparse, _ast.dump
+
+    def _unparse(node):
+        with NoTracing():
+            sym = _has_symbolic(node)
+        return "<text of a tree with symbolic leaves>" if sym else _orig_unparse(node)
+
+    def _dump(node, *a, **kw):
+        with NoTracing():
+            sym = _has_symbolic(node)
+        return "<dump of a tree with symbolic leaves>" if sym else _orig_dump(node, *a, **kw)
+
+    _ast.unparse, _ast.dump = _unparse, _dump
+
     # builtin callable(): CrossHair realises a symbolic argument handed to an unmodelled C builtin; symbolic
     # int/bool/float/str/bytes/containers are never callable, so answer without realising.
     import crosshair.core_and_libs  # noqa: F401  (registers the stock patches we override below)
